@@ -16,6 +16,7 @@ import (
 	"strings"
 
 	"golang.org/x/tools/go/packages"
+	"golang.org/x/tools/imports"
 )
 
 // Wrapper flattening.
@@ -555,6 +556,10 @@ func flattenPackage(w *World, p *packages.Package, uses []wrapUse, outRoot strin
 			return "formatting the rewritten " + w.Pos(f.Pos()) + ": " + err.Error()
 		}
 		name := w.Fset.Position(f.Pos()).Filename
+		// the moved declarations change which imports each file needs
+		if fixed, ierr := imports.Process(name, src, &imports.Options{Comments: true, TabIndent: true, TabWidth: 8}); ierr == nil {
+			src = fixed
+		}
 		rel, err := filepath.Rel(w.Root, name)
 		if err != nil {
 			return err.Error()
